@@ -162,6 +162,7 @@ pub fn replay_batch(script: &str, run: &dyn Fn(&str) -> bool) -> String {
         });
         let h = harness.clone();
         let r = std::panic::catch_unwind(std::panic::AssertUnwindSafe(|| run(&h)));
+        fs_cleanup();
         outs.push_str(&format!("CASE {} {}\n", id, harness));
         NATIVE.with(|n| {
             for o in &n.borrow().out {
@@ -199,4 +200,54 @@ pub fn kf_listed(role: &str) -> bool {
 /// Tier-dependent bound: `q` in the quick tier, `t` in the thorough tier.
 pub fn bound(_q: usize, _t: usize) -> usize {
     next("bound", "b").parse().unwrap()
+}
+
+/// Lower-case hex digest of `data` under algorithm `alg` (index into BLAKE2s, MD5, RMD160, SHA1,
+/// SHA256, SHA512).  Symbolically this is an uninterpreted function per algorithm and length;
+/// natively it is computed with the RustCrypto hashers directly (not through pkgsrc::digest).
+pub fn digest_hex(alg: usize, data: &[u8]) -> String {
+    use digest::Digest;
+    let out: Vec<u8> = match alg {
+        0 => blake2::Blake2s256::digest(data).to_vec(),
+        1 => md5::Md5::digest(data).to_vec(),
+        2 => ripemd::Ripemd160::digest(data).to_vec(),
+        3 => sha1::Sha1::digest(data).to_vec(),
+        4 => sha2::Sha256::digest(data).to_vec(),
+        _ => sha2::Sha512::digest(data).to_vec(),
+    };
+    hex(&out)
+}
+
+// ------------------------------------------------------------------------------------------
+// File-system stub.  Symbolically an in-memory tree (names and contents may be symbolic bytes,
+// directory listing order is arbitrary); natively a real temporary directory.
+thread_local! {
+    static FS_ROOTS: RefCell<Vec<std::path::PathBuf>> = RefCell::new(Vec::new());
+}
+
+/// A fresh, empty directory; every path the harness creates must live below it.
+pub fn fs_root() -> std::path::PathBuf {
+    static CTR: std::sync::atomic::AtomicUsize = std::sync::atomic::AtomicUsize::new(0);
+    let n = CTR.fetch_add(1, std::sync::atomic::Ordering::SeqCst);
+    let p = std::env::temp_dir().join(format!("verif-fs-{}-{}", std::process::id(), n));
+    let _ = std::fs::remove_dir_all(&p);
+    std::fs::create_dir_all(&p).expect("mkdir");
+    FS_ROOTS.with(|r| r.borrow_mut().push(p.clone()));
+    p
+}
+pub fn fs_add_file(path: &std::path::Path, content: &[u8]) {
+    if let Some(d) = path.parent() {
+        std::fs::create_dir_all(d).expect("mkdir");
+    }
+    std::fs::write(path, content).expect("write");
+}
+pub fn fs_add_dir(path: &std::path::Path) {
+    std::fs::create_dir_all(path).expect("mkdir");
+}
+pub fn fs_cleanup() {
+    FS_ROOTS.with(|r| {
+        for p in r.borrow_mut().drain(..) {
+            let _ = std::fs::remove_dir_all(p);
+        }
+    });
 }
